@@ -47,3 +47,12 @@ func VerifCollectGarbage(s storage.PeerStore, cutoffNs int64) error {
 
 // VerifPopulateProm runs the metrics aggregation once.
 func VerifPopulateProm(s storage.PeerStore) { s.(*peerStore).populateProm() }
+
+// VerifHoldShard takes the write lock of shard i and returns the function that releases it (to park an expiry
+// pass in the middle of its work).
+func VerifHoldShard(s storage.PeerStore, i int) func() {
+	sh := s.(*peerStore).shards[i]
+	sh.Lock()
+	return sh.Unlock
+}
+
